@@ -22,6 +22,9 @@ import (
 var curWorld *World
 
 func runVec(v *Vec) (res string) {
+	if v.Kind == "cpm" {
+		return runCPM(v)
+	}
 	w := newWorld(v)
 	curWorld = w
 	cpu := buildCPU(v, w)
